@@ -22,8 +22,9 @@ WHAT = {
        "reference): flow control is set on its closed ring (NULL dereference in qb_ipc_shm_fc_set) "
        "(history: created{Ref; Disconnect self}; RateLimit 3)",
     5: "socket transport: response/event send to a connection that was disconnected inside connection_created and is kept by a "
-       "reference writes to the unmapped control page / closed descriptor numbers (SEGV in qb_ipc_socket_send) "
-       "(history: created{Ref; Disconnect self}; Event 1)",
+       "reference uses its closed descriptor numbers and unmapped control page: once the numbers are reused the message is written "
+       "into an unrelated connection and the send counter update faults (SEGV in qb_ipc_socket_send, ipc_socket.c:414) "
+       "(history: created2{Disconnect self; Ref}; a third client connects; Resp 2)",
     6: "qb_ipcs_destroy keeps a pointer to the next list element while it disconnects the current one: a connection_closed callback "
        "that releases or disconnects that next connection leaves it dangling (heap-use-after-free in qb_ipcs_destroy) "
        "(history: created1{Ref}; closed2{Unref 1}; client 1 leaves; Step; SvcDestroy)",
@@ -35,7 +36,8 @@ REPRO = {
     2: (0, ["Body msg 1 0 Disconnect self"] + CON + ["CSend 0 1", "Step"]),
     3: (0, ["Body created 1 0 Ref self", "Body msg 1 1 Disconnect self"] + CON + ["CSend 0 2", "Step", "Unref 1"]),
     4: (0, ["Body created 1 0 Ref self ; Disconnect self"] + CON + ["RateLimit 3", "Unref 1"]),
-    5: (1, ["Body created 1 0 Ref self ; Disconnect self"] + CON + ["Event 1", "Unref 1"]),
+    5: (1, ["Body msg 1 0 Resp 2", "Body created 2 0 Disconnect 2 ; Ref self", "CConnect 2", "Step", "Step", "CContinue 2",
+            "Fork 1 1 0", "Wait 1", "CConnect 0", "CSend 2 2", "Step"]),
     6: (0, ["Body created 1 0 Ref self", "Body closed 2 0 Unref 1"] + CON2 + ["CDisc 0", "Step", "SvcDestroy"]),
 }
 INVS = ["TypeOK", "WordOK", "ClosedOnlyIfCreated", "DestroyedAtZero", "RetryKeepsRef", "NoZombie", "Conforms",
@@ -125,13 +127,15 @@ def run(ctx):
     rng = random.Random(ctx.seed * 104729 + 4)
     progs = gen.directed()
     nd = len(progs)
-    n = 1200 if q else 16000
+    n = 5000 if q else 80000
     progs += [gen.program(rng) for _ in range(n)]
     ctx.sample({"program": progs[4]})
     ctx.sample({"program": progs[nd]})
     ctx.log("%d programs (%d directed)" % (len(progs), nd))
-    ctx.exec_validate(exe, progs, lambda p: p, "IpcLifeTrace.tla", "IpcLifeTrace.cfg", nshards=4, label="c04",
-                      harness_args=(["--kf-skip=" + ",".join(map(str, still))] if still else []), timeout=1500)
+    hargs = (["--kf-skip=" + ",".join(map(str, still))] if still else [])
+    for b in range(0, len(progs), 8000):
+        ctx.exec_validate(exe, progs[b:b + 8000], lambda p: p, "IpcLifeTrace.tla", "IpcLifeTrace.cfg", nshards=4,
+                          label="c04-%d" % (b // 8000), harness_args=hargs, timeout=1500)
     ctx.cov["programs_directed"] = nd
     ctx.cov["programs_random"] = len(progs) - nd
     ctx.cov["exhaustive"] = True
